@@ -8,7 +8,9 @@
        target t is q*W or one of the two ends q*W -+ tol_wtarget of the borderline window;
      - weighted, q<=0 / q>=1: the least / greatest value carrying a non-zero weight (NaN if none);
    NaN for the empty sample; and the observed IQR is within tolerance of Q(0.75)-Q(0.25) of the
-   same specification.  Everything is over Q and closed under the global context. *)
+   same specification (weighted: at the exact targets 3W/4, W/4 when the verdict code is 0; a borderline
+   choice inside the IQR makes the code 1); unweighted results satisfy the exact bracket test
+   (bracket_facts).  Everything is over Q and closed under the global context. *)
 From MM Require Import Base.Num Base.GASort Model.Stream Proofs.Stream Model.Sample Model.Quantile Spec.Quantile
   Proofs.Quantile Proofs.QuantileW Proofs.Sample Proofs.CheckBase Proofs.NumSound Check.C10.
 From Coq Require Import Qround Lia Lqa Permutation Sorted.
@@ -62,6 +64,31 @@ Definition w_iqr_ok (xs : list Q) (ps : list (Q * Q)) (ist : Z) (iv : xreal) : P
     in_window ps (3 # 4) ta /\ wq_at ps ta a /\ in_window ps (1 # 4) tb /\ wq_at ps tb b /\
     Qabs (v - (a - b)) <= tol_iqr_w xs.
 
+(* weighted IQR with NO borderline choice: both quartiles at their exact targets 3W/4 and W/4 *)
+Definition w_iqr_exact (xs : list Q) (ps : list (Q * Q)) (ist : Z) (iv : xreal) : Prop :=
+  exists v a b, iv = XFin v /\ wq_at ps (totw ps * (3 # 4)) a /\ wq_at ps (totw ps * (1 # 4)) b /\
+    Qabs (v - (a - b)) <= tol_iqr_w xs.
+
+(* THE BRACKET (exact, no tolerance): an unweighted result at an interpolating position
+   h = 1/3 + q (N + 1/3) = k + frac, 1 <= k < N, 0 < q < 1, lies between the k-th and the (k+1)-th
+   order statistic of the ascending arrangement [sx]; when frac is within 1e-6 of 0 or 1 (the
+   float position may fall into the neighbouring interval) the bracket is widened by one order
+   statistic on each side (clamped at the last one) *)
+Definition near_break (frac : Q) : bool := Qle_bool frac (1 # 1000000) || Qle_bool (999999 # 1000000) frac.
+Definition bracket_lo (brk : bool) (i0 : nat) : nat := if brk then Nat.pred i0 else i0.
+Definition bracket_hi (brk : bool) (i0 n : nat) : nat := Nat.min (if brk then i0 + 2 else i0 + 1)%nat (n - 1)%nat.
+Definition bracket_ok (sx : list Q) (q v : Q) : Prop :=
+  let n := length sx in
+  let h := quantile_pos third_f n q in
+  let k := Qfloor h in
+  0 < q -> q < 1 -> (1 <= k)%Z -> (k < Z.of_nat n)%Z ->
+  let i0 := Z.to_nat (k - 1) in
+  let brk := near_break (h - inject_Z k) in
+  exists a b, nth_error sx (bracket_lo brk i0) = Some a /\ nth_error sx (bracket_hi brk i0 n) = Some b /\
+              a <= v /\ v <= b.
+Definition bracket_facts (xs : list Q) (qs : list (Q * Z * xreal)) : Prop :=
+  forall q st v, In (q, st, XFin v) qs -> bracket_ok (Qsort xs) q v.
+
 Definition nan_q_ok (qo : Q * Z * xreal) : Prop := let '(q, st, obs) := qo in st = 0%Z /\ obs = XNaN.
 
 (* every weighted mid-range query answered with the exact target (no borderline choice) *)
@@ -88,8 +115,8 @@ Definition case_ok (code : Z) (c : c10case) : Prop :=
   | _ => if hasw
          then exists ps, Permutation ps (combine xs ws) /\ psorted ps /\
                          Forall (w_q_ok xs ws ps) qs /\ w_iqr_ok xs ps ist iv /\
-                         ((code <= 0)%Z -> Forall (w_q_exact ps) qs)
-         else Forall (unw_q_ok xs) qs /\ unw_iqr_ok xs ist iv
+                         ((code <= 0)%Z -> Forall (w_q_exact ps) qs /\ w_iqr_exact xs ps ist iv)
+         else Forall (unw_q_ok xs) qs /\ unw_iqr_ok xs ist iv /\ bracket_facts xs qs
   end.
 
 (* ====================================================================== *)
@@ -436,13 +463,14 @@ Qed.
 
 Lemma iqr_ok_unw sorted xs ws ps W wex ist iv :
   xs <> [] -> (sorted = true -> StronglySorted Qle xs) ->
-  iqr_ok (csorted sorted false xs ws) xs ps W wex ist iv = true -> unw_iqr_ok xs ist iv.
+  iqr_code (csorted sorted false xs ws) xs ps W wex ist iv <> 2%Z -> unw_iqr_ok xs ist iv.
 Proof.
-  intros Hne Hs. unfold iqr_ok. rewrite csorted_unw_ws, iqr_csorted. unfold csample.
+  intros Hne Hs. unfold iqr_code. rewrite csorted_unw_ws, iqr_csorted. unfold csample.
   destruct (unw_model_hf8 xs sorted (3 # 4) Hne Hs) as (a & Ea & Ba & _).
   destruct (unw_model_hf8 xs sorted (1 # 4) Hne Hs) as (b & Eb & Bb & _).
-  rewrite (iqr_def (mkSample xs None sorted) a b (or_introl eq_refl) Ea Eb).
-  intro R. apply rv_close_val in R. destruct R as (-> & v & -> & Bv).
+  rewrite (iqr_def (mkSample xs None sorted) a b (or_introl eq_refl) Ea Eb). cbv zeta.
+  destruct (rv_close (tol_iqr_unw xs) (RVal (a - b)) ist iv) eqn:R; [|congruence]. intros _.
+  apply rv_close_val in R. destruct R as (-> & v & -> & Bv).
   split; [reflexivity|]. exists v. split; [reflexivity|].
   apply Qabs_Qle_condition in Bv, Ba, Bb. apply Qabs_Qle_condition. destruct Bv, Ba, Bb. split; lra.
 Qed.
@@ -460,7 +488,8 @@ Lemma iqr_ok_w sorted xs ws wex ist iv :
   xs <> [] -> length ws = length xs -> (sorted = true -> StronglySorted Qle xs) ->
   let s' := csorted sorted true xs ws in
   let ps := cpairs s' in
-  iqr_ok s' xs ps (wtotal ps) wex ist iv = true -> w_iqr_ok xs ps ist iv.
+  iqr_code s' xs ps (wtotal ps) wex ist iv <> 2%Z ->
+  w_iqr_ok xs ps ist iv /\ ((iqr_code s' xs ps (wtotal ps) wex ist iv <= 0)%Z -> w_iqr_exact xs ps ist iv).
 Proof.
   intros Hne Hl Hs s' ps.
   destruct (weighted_setup sorted xs ws Hl Hs) as (Sd & (w' & Hw' & Hx' & Ew') & _ & _ & Hnil).
@@ -468,7 +497,7 @@ Proof.
   assert (Hps : ps <> []) by (intro E; apply Hne, Hnil, E).
   assert (Hxs' : s_xs s' <> []) by (rewrite Hx'; destruct ps; [congruence|discriminate]).
   assert (Eps : combine (s_xs s') w' = ps) by (unfold ps, cpairs; rewrite Hw'; reflexivity).
-  unfold iqr_ok. rewrite Hw'. cbv zeta.
+  unfold iqr_code. rewrite Hw'. cbv zeta.
   assert (Ei : exists a b, iqr s' = RVal (a - b) /\ wscan ps (wtotal ps * (3 # 4)) None = Some a /\
                            wscan ps (wtotal ps * (1 # 4)) None = Some b).
   { unfold iqr, iqr_c. rewrite Sd. fold (quantile s' (3 # 4)). fold (quantile s' (1 # 4)).
@@ -478,11 +507,17 @@ Proof.
     destruct (wscan ps (wtotal ps * (1 # 4)) None) as [b|] eqn:Eb; [|apply wscan_none in Eb; congruence].
     exists a, b. auto. }
   destruct Ei as (a & b & Ei & Ea & Eb). rewrite Ei.
-  intro H. apply Bool.orb_true_iff in H. destruct H as [R|H].
-  - apply rv_close_val in R. destruct R as (-> & v & -> & Bv). split; [reflexivity|].
-    exists v, a, b, (wtotal ps * (3 # 4)), (wtotal ps * (1 # 4)).
-    repeat split; [apply in_window_exact|apply wscan_at; exact Ea|apply in_window_exact|apply wscan_at; exact Eb|exact Bv].
-  - apply andb_prop in H. destruct H as [H Hc]. apply andb_prop in H. destruct H as [_ Hst]. apply Z.eqb_eq in Hst.
+  destruct (rv_close (tol_iqr_w xs) (RVal (a - b)) ist iv) eqn:R.
+  - intros _. apply rv_close_val in R. destruct R as (-> & v & -> & Bv). split.
+    + split; [reflexivity|].
+      exists v, a, b, (wtotal ps * (3 # 4)), (wtotal ps * (1 # 4)).
+      repeat split; [apply in_window_exact|apply wscan_at; exact Ea|apply in_window_exact|apply wscan_at; exact Eb|exact Bv].
+    + intros _. exists v, a, b. split; [reflexivity|].
+      split; [eapply wq_at_comp; [|apply wscan_at; exact Ea]; rewrite wtotal_sum; reflexivity|].
+      split; [eapply wq_at_comp; [|apply wscan_at; exact Eb]; rewrite wtotal_sum; reflexivity|exact Bv].
+  - match goal with |- (if ?c then 1%Z else 2%Z) <> 2%Z -> _ => destruct c eqn:H end; [|congruence].
+    intros _. split; [|intro L; exfalso; lia].
+    apply andb_prop in H. destruct H as [H Hc]. apply andb_prop in H. destruct H as [_ Hst]. apply Z.eqb_eq in Hst.
     destruct iv as [| |v]; try discriminate.
     apply existsb_exists in Hc. destruct Hc as (oa & Ia & Hc). apply existsb_exists in Hc. destruct Hc as (ob & Ib & Hc).
     destruct oa as [a'|]; [|discriminate]. destruct ob as [b'|]; [|discriminate].
@@ -493,18 +528,20 @@ Qed.
 
 Lemma iqr_ok_empty sorted hasw ist iv :
   let s' := csorted sorted hasw [] [] in
-  iqr_ok s' [] (cpairs s') (wtotal (cpairs s')) (sums_exact (map snd (cpairs s')) 0) ist iv = true ->
+  iqr_code s' [] (cpairs s') (wtotal (cpairs s')) (sums_exact (map snd (cpairs s')) 0) ist iv <> 2%Z ->
   ist = 0%Z /\ iv = XNaN.
 Proof.
-  intros s'. unfold iqr_ok.
+  intros s'. unfold iqr_code.
   assert (E : iqr s' = RNaN) by (destruct sorted, hasw; reflexivity). rewrite E.
   destruct hasw.
   - assert (Ew : s_ws s' = Some []) by (destruct sorted; reflexivity). rewrite Ew. cbv zeta.
     assert (Ep : cpairs s' = []) by (destruct sorted; reflexivity). rewrite Ep.
-    intro H. apply Bool.orb_true_iff in H. destruct H as [R|H]; [exact (rv_close_nan _ _ _ R)|].
+    destruct (rv_close (tol_iqr_w []) RNaN ist iv) eqn:R; [intros _; exact (rv_close_nan _ _ _ R)|].
+    match goal with |- (if ?c then 1%Z else 2%Z) <> 2%Z -> _ => destruct c eqn:H end; [|congruence].
     exfalso. apply andb_prop in H. destruct H as [H _]. apply andb_prop in H. destruct H as [H _].
     revert H. vm_compute. discriminate.
-  - assert (Ew : s_ws s' = None) by (destruct sorted; reflexivity). rewrite Ew. apply rv_close_nan.
+  - assert (Ew : s_ws s' = None) by (destruct sorted; reflexivity). rewrite Ew.
+    destruct (rv_close (tol_iqr_unw []) RNaN ist iv) eqn:R; [intros _; exact (rv_close_nan _ _ _ R)|congruence].
 Qed.
 
 (* ====================================================================== *)
@@ -536,6 +573,47 @@ Proof.
   split; [exact (in_range_b_sound xs qs A)|exact (mono_b_sound qs B)].
 Qed.
 
+Lemma bracket_b_sound sx q v : fst (bracket_b sx q (XFin v)) = true -> bracket_ok sx q v.
+Proof.
+  unfold bracket_b, bracket_ok, near_break, bracket_lo, bracket_hi. cbv zeta. intros H Q0 Q1 K1 Kn.
+  assert (A : Qle_bool q 0 = false) by (apply Qle_bool_false; exact Q0).
+  assert (B : Qle_bool 1 q = false) by (apply Qle_bool_false; exact Q1).
+  assert (C : (Qfloor (quantile_pos third_f (length sx) q) <=? 0)%Z = false) by (apply Z.leb_gt; lia).
+  assert (D : (Z.of_nat (length sx) <=? Qfloor (quantile_pos third_f (length sx) q))%Z = false) by (apply Z.leb_gt; lia).
+  rewrite A, B, C, D in H. cbn [orb] in H.
+  set (k := Qfloor (quantile_pos third_f (length sx) q)) in *.
+  set (brk := Qle_bool (quantile_pos third_f (length sx) q - inject_Z k) (1 # 1000000) ||
+              Qle_bool (999999 # 1000000) (quantile_pos third_f (length sx) q - inject_Z k)) in *.
+  set (il := if brk then Nat.pred (Z.to_nat (k - 1)) else Z.to_nat (k - 1)) in *.
+  set (ih := Nat.min (if brk then Z.to_nat (k - 1) + 2 else Z.to_nat (k - 1) + 1)%nat (length sx - 1)%nat) in *.
+  assert (Lil : (il < length sx)%nat) by (unfold il; destruct brk; lia).
+  assert (Lih : (ih < length sx)%nat) by (unfold ih; destruct brk; lia).
+  destruct (nth_error sx il) as [a|] eqn:Ea; [|apply nth_error_None in Ea; lia].
+  destruct (nth_error sx ih) as [b|] eqn:Eb; [|apply nth_error_None in Eb; lia].
+  cbn [fst] in H. apply andb_prop in H. destruct H as [H1 H2].
+  apply Qle_bool_iff in H1. apply Qle_bool_iff in H2. exists a, b. auto.
+Qed.
+Lemma order_check_bracket xs sx qs : fst (order_check false xs sx qs) = None ->
+  forall q st v, In (q, st, XFin v) qs -> bracket_ok sx q v.
+Proof.
+  unfold order_check. cbv zeta.
+  destruct (in_range_b xs qs); cbn [negb]; [|discriminate].
+  destruct (mono_b qs); cbn [negb]; [|discriminate].
+  match goal with |- fst (if negb (forallb fst ?l) then _ else _) = None -> _ => destruct (forallb fst l) eqn:F end;
+    cbn [negb]; [|discriminate].
+  intros _ q st v Hin. rewrite forallb_forall in F. apply bracket_b_sound. apply F.
+  apply in_map_iff. exists (q, st, XFin v). split; [reflexivity|exact Hin].
+Qed.
+Lemma csorted_unw_xs sorted xs ws : (sorted = true -> StronglySorted Qle xs) ->
+  s_xs (csorted sorted false xs ws) = Qsort xs.
+Proof.
+  intro Hs. unfold csorted, csample. destruct sorted; [|reflexivity].
+  cbn [s_xs]. symmetry. apply Qsort_id. apply Hs. reflexivity.
+Qed.
+
+Lemma iqr_ok_code s' xs ps W wex ist iv : iqr_ok s' xs ps W wex ist iv = true -> iqr_code s' xs ps W wex ist iv <> 2%Z.
+Proof. unfold iqr_ok. intro H. apply Bool.negb_true_iff, Z.eqb_neq in H. exact H. Qed.
+
 Lemma check_case_eq sorted hasw xs ws qs ist iv unm :
   check_case (sorted, hasw, xs, ws, qs, ist, iv, unm) =
   if (if hasw then negb (length ws =? length xs)%nat else negb (length ws =? 0)%nat) then (V_MALFORMED, 0%Z, (-1)%Z, []) else
@@ -553,7 +631,9 @@ Lemma check_case_eq sorted hasw xs ws qs ist iv unm :
       else if match fst oc with Some _ => true | None => false end
            then (V_MISMATCH, tag', (-4)%Z, match fst oc with Some w => [10%Z; w] | None => [] end)
       else if negb (unm =? 1)%Z then (V_MISMATCH, tag', (-2)%Z, [9%Z])
-      else if iqr_ok s' xs ps W wex ist iv then (code, tag', (-1)%Z, [])
+      else if iqr_ok s' xs ps W wex ist iv then
+        let ic := iqr_code s' xs ps W wex ist iv in
+        (Z.max code ic, (if (ic =? 1)%Z && negb (tag' =? 0)%Z then Z.lor tag' T_BORDER else tag'), (-1)%Z, [])
       else (V_MISMATCH, tag', (-3)%Z, match iqr s' with RVal e => 1%Z :: qdiag e | RNaN => [0%Z] | RPanic => [2%Z] end)
   end.
 Proof. reflexivity. Qed.
@@ -578,12 +658,14 @@ Proof.
   destruct (run_qs _ _ _ _ _ _ qs 0%Z 0%Z 0%Z) as [[[code tag] pos] diag] eqn:R.
   destruct (code =? 2)%Z eqn:C2; [injection H as <- _ _ _; congruence|]. apply Z.eqb_neq in C2.
   destruct (fst (order_check hasw xs (s_xs (csorted sorted hasw xs ws)) qs)) as [w|] eqn:OC; [injection H as <- _ _ _; congruence|].
-  apply order_check_sound in OC.
+  pose proof OC as OCB. apply order_check_sound in OC.
   destruct (negb (unm =? 1)%Z) eqn:U; [injection H as <- _ _ _; congruence|].
   apply Bool.negb_false_iff, Z.eqb_eq in U.
   destruct (iqr_ok _ xs _ _ _ ist iv) eqn:I; [|injection H as <- _ _ _; congruence].
-  injection H as <- _ _ _.
+  apply iqr_ok_code in I.
+  injection H as Ev _ _ _.
   destruct (run_qs_sound _ _ _ _ _ _ _ _ _ _ _ _ _ _ R C2) as [_ F].
+  assert (Lc : (code <= v)%Z) by lia.
   assert (Hl : hasw = true -> length ws = length xs).
   { intros ->. apply Bool.negb_false_iff, Nat.eqb_eq in HL. exact HL. }
   assert (Hl0 : hasw = false -> ws = []).
@@ -605,13 +687,16 @@ Proof.
       exists (cpairs (csorted sorted true xs ws)). split; [exact P|]. split; [exact S|]. split; [|split].
       * eapply Forall_impl; [|exact F]. intros [[q st] obs] [Hq _].
         exact (proj1 (check_q_w sorted xs ws _ q st obs Hne Hl Hs Hq)).
-      * exact (iqr_ok_w sorted xs ws _ ist iv Hne Hl Hs I).
-      * intro Hc. eapply Forall_impl; [|exact F]. intros [[q st] obs] [Hq Hle].
-        apply (proj2 (check_q_w sorted xs ws _ q st obs Hne Hl Hs Hq)). cbv zeta in Hle. lia.
-    + split.
+      * exact (proj1 (iqr_ok_w sorted xs ws _ ist iv Hne Hl Hs I)).
+      * intro Hc. split.
+        -- eapply Forall_impl; [|exact F]. intros [[q st] obs] [Hq Hle].
+           apply (proj2 (check_q_w sorted xs ws _ q st obs Hne Hl Hs Hq)). cbv zeta in Hle. lia.
+        -- apply (proj2 (iqr_ok_w sorted xs ws _ ist iv Hne Hl Hs I)). lia.
+    + split; [|split].
       * eapply Forall_impl; [|exact F]. intros [[q st] obs] [Hq _].
         exact (check_q_unw sorted xs ws _ _ _ q st obs Hne Hs Hq).
       * exact (iqr_ok_unw sorted xs ws _ _ _ ist iv Hne Hs I).
+      * rewrite (csorted_unw_xs sorted xs ws Hs) in OCB. exact (order_check_bracket xs (Qsort xs) qs OCB).
 Qed.
 
 Lemma run_steps_sound : forall cs i code tag v t p d,
@@ -658,3 +743,37 @@ Qed.
 Theorem case_ok_order code sorted hasw xs ws qs ist iv unm :
   case_ok code (sorted, hasw, xs, ws, qs, ist, iv, unm) -> order_facts xs qs.
 Proof. unfold case_ok. tauto. Qed.
+
+(* ---------- what the bracket gives ---------- *)
+Theorem case_ok_bracket code sorted xs ws qs ist iv unm :
+  case_ok code (sorted, false, xs, ws, qs, ist, iv, unm) -> xs <> [] -> bracket_facts xs qs.
+Proof. unfold case_ok. destruct xs; [congruence|]. tauto. Qed.
+
+(* equal ends of the bracket: the only admissible result is that value *)
+Theorem bracket_equal_ends sx q v : bracket_ok sx q v ->
+  let n := length sx in
+  let h := quantile_pos third_f n q in
+  let k := Qfloor h in
+  0 < q -> q < 1 -> (1 <= k)%Z -> (k < Z.of_nat n)%Z ->
+  forall a b, nth_error sx (bracket_lo (near_break (h - inject_Z k)) (Z.to_nat (k - 1))) = Some a ->
+              nth_error sx (bracket_hi (near_break (h - inject_Z k)) (Z.to_nat (k - 1)) n) = Some b ->
+              a == b -> v == a.
+Proof.
+  unfold bracket_ok. cbv zeta. intros H Q0 Q1 K1 Kn a b Ea Eb E.
+  destruct (H Q0 Q1 K1 Kn) as (a' & b' & Ea' & Eb' & L1 & L2).
+  rewrite Ea in Ea'. rewrite Eb in Eb'. injection Ea' as <-. injection Eb' as <-. lra.
+Qed.
+(* away from the break points: between two EQUAL adjacent order statistics x_(k) == x_(k+1) the result is exactly that value *)
+Theorem bracket_equal_neighbours sx q v : bracket_ok sx q v ->
+  let n := length sx in
+  let h := quantile_pos third_f n q in
+  let k := Qfloor h in
+  0 < q -> q < 1 -> (1 <= k)%Z -> (k < Z.of_nat n)%Z -> near_break (h - inject_Z k) = false ->
+  forall a b, nth_error sx (Z.to_nat (k - 1)) = Some a -> nth_error sx (Z.to_nat k) = Some b -> a == b -> v == a.
+Proof.
+  cbv zeta. intros H Q0 Q1 K1 Kn NB a b Ea Eb E.
+  apply (bracket_equal_ends sx q v H Q0 Q1 K1 Kn a b); [| |exact E]; rewrite NB; unfold bracket_lo, bracket_hi; [exact Ea|].
+  replace (Nat.min (Z.to_nat (Qfloor (quantile_pos third_f (length sx) q) - 1) + 1) (length sx - 1))%nat
+    with (Z.to_nat (Qfloor (quantile_pos third_f (length sx) q))) by lia.
+  exact Eb.
+Qed.
